@@ -318,7 +318,9 @@ class LockDomain(Domain):
                 st = self._touch(field, "rw", node, state)
                 kind = self.kinds.get(field, "deque")
                 if op in ("popleft", "pop"):
-                    return [("ok", Obj("popped:" + field), st), ("exc", Exc(ORD, "KeyError" if kind == "set" else "IndexError", node.lineno), st)]
+                    # (a pop that fails has found the collection empty, as much as a truth test of it would have)
+                    st_empty = st.set("#free_empty", True) if "free" in field else st
+                    return [("ok", Obj("popped:" + field), st), ("exc", Exc(ORD, "KeyError" if kind == "set" else "IndexError", node.lineno), st_empty)]
                 # remove(obj): success => the caller owns obj (removed by this thread in this hold)
                 nm = node.args[0].id if node.args and isinstance(node.args[0], ast.Name) else None
                 known = st.get(("member", nm), None) if nm is not None else None
